@@ -92,7 +92,10 @@ def run_c12(job):
         # the maximising instance has already solved a task of the OPPOSITE direction (same space and seed); the minimising one is fresh
         # (warming up both symmetrically would cancel a direction-caching defect)
         jmax["warmup"] = {"minmax": "min", "objective": job["objective"]}
-    return {"job": job, "max": digest(trace.run_traced(jmax)), "min": digest(trace.run_traced(jmin))}
+    # what a caller reads off the two results through the trend utilities (ranks 0, 1, middle, last of every generation): theorem C12.c12_readers
+    jmax["utils"] = jmin["utils"] = [("all", None)]
+    rmax, rmin = trace.run_traced(jmax), trace.run_traced(jmin)
+    return {"job": job, "max": digest(rmax), "min": digest(rmin), "readers_max": rmax.get("utils"), "readers_min": rmin.get("utils")}
 
 
 def run_c18(job):
